@@ -21,6 +21,7 @@ mod vecs;
 mod vconv;
 mod spatial;
 mod geom;
+mod matprog;
 
 /// an angle value as a list of tokens (shared by the drivers)
 pub fn xform_token(a: q::Q) -> serde_json::Value { xform::token_of(a) }
@@ -46,6 +47,7 @@ fn main() {
         ("drive", "bezier") => bezier::drive_bezier(rest),
         ("drive", "bezext") => bezier::drive_bezext(rest),
         ("drive", "bezlen") => bezier::drive_bezlen(rest),
+        ("drive", "matprog") => matprog::drive_matprog(rest),
         ("drive", "boxes") => geom::drive_boxes(rest),
         ("drive", "shapes") => geom::drive_shapes(rest),
         ("drive", "spatial") => spatial::drive_spatial(rest),
